@@ -56,3 +56,101 @@ def compaction(stmts, table, mask, n):
         b = s.body[0]
         return unparse(b.targets[0]) == f'{table}[{c}][:{n}]' and unparse(b.value) == f'{table}[{c}][{mask}]'
     return False
+
+
+_SEEN = set()
+
+
+def _alias_of(e, P, defs, depth=0):
+    """'alias' when the value of `e` is certainly a view of the caller's array `P` (same memory, so stores through it land in
+    the caller's array), 'copy' when it can be a fresh array (stores are lost), None when `e` does not derive from P."""
+    import ast
+    from .srcmodel import unparse, dotted
+    if depth > 8:
+        return 'copy'
+    if not any(isinstance(x, ast.Name) and (x.id == P or x.id in defs) for x in ast.walk(e)):
+        return None
+    if isinstance(e, ast.Name):
+        if e.id == P:
+            return 'alias'
+        if e.id in _SEEN:
+            return None
+        _SEEN.add(e.id)
+        try:
+            rs = [_alias_of(v, P, defs, depth + 1) for v in defs.get(e.id, [])]
+        finally:
+            _SEEN.discard(e.id)
+        rs = [r for r in rs if r is not None]
+        if not rs:
+            return None
+        return 'alias' if all(r == 'alias' for r in rs) else 'copy'
+    if isinstance(e, ast.Attribute) and e.attr in ('T', 'real', 'base', 'data'):
+        return _alias_of(e.value, P, defs, depth + 1)
+    if isinstance(e, ast.Subscript):
+        def basic(s):
+            if isinstance(s, ast.Slice) or (isinstance(s, ast.Constant) and (isinstance(s.value, int) or s.value is Ellipsis or s.value is None)):
+                return True
+            if isinstance(s, ast.Tuple):
+                return all(basic(x) for x in s.elts)
+            if isinstance(s, ast.UnaryOp) and isinstance(s.operand, ast.Constant):
+                return True
+            return False
+        r = _alias_of(e.value, P, defs, depth + 1)
+        return r if r != 'alias' else ('alias' if basic(e.slice) else 'copy')
+    if isinstance(e, ast.IfExp):
+        rs = [r for r in (_alias_of(e.body, P, defs, depth + 1), _alias_of(e.orelse, P, defs, depth + 1)) if r is not None]
+        return None if not rs else ('alias' if all(r == 'alias' for r in rs) else 'copy')
+    if isinstance(e, ast.Call):
+        d = dotted(e.func)
+        kws = {k.arg: unparse(k.value) for k in e.keywords}
+        if isinstance(e.func, ast.Attribute) and not d.startswith(('np.', 'numpy.')):
+            inner = _alias_of(e.func.value, P, defs, depth + 1)
+            if inner is None:
+                return None if not any(_alias_of(a, P, defs, depth + 1) for a in e.args) else 'copy'
+            if inner == 'copy':
+                return 'copy'
+            a = e.func.attr
+            if a == 'view':
+                return 'alias'
+            if a == 'reshape':
+                return 'alias' if kws.get('copy') == 'False' else 'copy'
+            if a in ('squeeze', 'transpose', 'swapaxes'):
+                return 'alias'
+            return 'copy'
+        if d in ('np.asarray', 'np.asanyarray', 'numpy.asarray', 'numpy.asanyarray') and len(e.args) == 1 and (not kws or kws == {'copy': 'False'}):
+            return _alias_of(e.args[0], P, defs, depth + 1)
+        if d in ('np.reshape', 'numpy.reshape') and e.args:
+            r = _alias_of(e.args[0], P, defs, depth + 1)
+            return r if r != 'alias' else ('alias' if kws.get('copy') == 'False' else 'copy')
+        if d in ('np.squeeze', 'np.atleast_1d', 'np.atleast_2d', 'np.transpose') and len(e.args) == 1:
+            return _alias_of(e.args[0], P, defs, depth + 1)
+        rs = [_alias_of(a, P, defs, depth + 1) for a in list(e.args) + [k.value for k in e.keywords]]
+        return 'copy' if any(rs) else None
+    rs = [_alias_of(c, P, defs, depth + 1) for c in ast.iter_child_nodes(e) if isinstance(c, ast.expr)]
+    return 'copy' if any(rs) else None
+
+
+def supplied_output_reaches(fn, P, arg):
+    """The wrapper hands the kernel `arg` in an output position; P is the caller's optional preallocated array.  Returns
+    (ok, why): ok when every value of `arg` that derives from P is certainly a view of P (never a possible copy)."""
+    import ast
+    from .srcmodel import walk_no_nested, unparse
+    defs = {}
+    for n in walk_no_nested(fn):
+        if isinstance(n, ast.Assign) and len(n.targets) == 1 and isinstance(n.targets[0], ast.Name) and n.targets[0].id != P:
+            defs.setdefault(n.targets[0].id, []).append(n.value)
+    # the parameter itself re-bound (posout = np.ascontiguousarray(posout)) is a definition of a different value
+    rebinds = [n for n in walk_no_nested(fn) if isinstance(n, ast.Assign) and any(isinstance(t, ast.Name) and t.id == P for t in n.targets)]
+    for n in rebinds:
+        r = _alias_of(n.value, P, {})
+        if r == 'copy':
+            return False, f'line {n.lineno}: {unparse(n)[:70]} can re-bind the caller\'s array to a copy'
+    r = _alias_of(arg, P, defs)
+    if r == 'copy':
+        bad = None
+        if isinstance(arg, ast.Name):
+            for v in defs.get(arg.id, []):
+                if _alias_of(v, P, defs) == 'copy':
+                    bad = v
+        return False, f'{unparse(arg)} = {unparse(bad)[:60] if bad is not None else "?"} can be a COPY of the caller\'s {P}'
+    return True, f'{unparse(arg)} is a view of {P} (or an array allocated here)'
